@@ -48,7 +48,7 @@ def fingerprint(r: dict) -> list:
 
 
 def handler(task: dict) -> dict:
-    hist = engine.make_history(task["index"], task["seed"], task["tier"])
+    hist = engine.make_history(task["index"], task["seed"], task["tier"], task.get("batch", 0))
     out = evaluate(hist)
     out["index"] = task["index"]
     out["seed"] = task["seed"]
@@ -261,10 +261,10 @@ def main(tier: str, replay_path: Optional[str] = None, runs: Optional[int] = Non
     if replay_path:
         return replay(replay_path)
     cfg = TIERS[tier]
-    sys_h, sys_counts = engine.systematic()
+    batch = common.batch_seed()
+    sys_h, sys_counts = engine.systematic(tier, batch)
     n_random = runs if runs is not None else common.env_int("VERIF_RUNS", cfg["random_runs"])
     budget = budget_s if budget_s is not None else common.env_float("VERIF_BUDGET_S", cfg["budget_s"])
-    batch = common.batch_seed()
     known = common.load_known(PROP)
     for line in check_known(known):
         print(line)
@@ -274,7 +274,7 @@ def main(tier: str, replay_path: Optional[str] = None, runs: Optional[int] = Non
         idx = range(start, start + n_random)
     else:
         idx = range(0, total)
-    tasks = ({"index": i, "seed": engine.run_seed(PROP, batch, i), "tier": tier} for i in idx)
+    tasks = ({"index": i, "seed": engine.run_seed(PROP, batch, i), "tier": tier, "batch": batch} for i in idx)
     agg = Agg()
     violations = []
     for res in proc.pool_map(handler, tasks, deadline=deadline, stop=lambda: len(violations) >= 40):
